@@ -56,6 +56,9 @@ def conc(v, model, heap, depth=0):
         return {'t': 'tuple', 'v': [conc(x, model, heap, depth + 1) for x in v.t]}
     if k == 'enum':
         return {'t': 'enum', 'cls': v.t[0], 'member': v.t[1]}
+    if k == 'enumv':
+        r = model.eval(v.t[1], model_completion=True)
+        return {'t': 'enumv', 'cls': v.t[0], 'value': r.as_long() if z3.is_int_value(r) else 0}
     if k == 'cls':
         return {'t': 'cls', 'v': v.t}
     if depth > 6:
@@ -67,6 +70,18 @@ def conc(v, model, heap, depth=0):
     if k == 'obj':
         h = heap[v.t]
         return {'t': 'obj', 'cls': h.cls, 'id': v.t, 'fields': {f: conc(x, model, heap, depth + 1) for f, x in h.f.items()}}
+    if k == 'opq' and v.x == 'datetime':
+        # a datetime whose UTC image has the calendar fields the model chose (built as an aware UTC datetime)
+        OPQ = v.t.sort()
+        utc = z3.Function('dt_utc', OPQ, OPQ)(v.t)
+        f = {}
+        for nm in ('year', 'month', 'day', 'hour', 'minute', 'second', 'microsecond'):
+            r = model.eval(z3.Function(f'datetime_{nm}', OPQ, z3.IntSort())(utc), model_completion=True)
+            f[nm] = r.as_long() if z3.is_int_value(r) else 1
+        return {'t': 'datetime_utc', 'v': f}
+    if k == 'opq' and v.x in ('val', 'uval', 'stored', 'float', 'scalar'):
+        # an opaque scalar: any concrete number will do; distinct model values get distinct numbers
+        return {'t': 'float' if v.x == 'float' else 'int', 'v': (abs(hash(str(model.eval(v.t, model_completion=True)))) % 97) + 2}
     if k == 'opq':
         return {'t': 'opaque', 'tag': v.x, 'v': str(model.eval(v.t, model_completion=True))}
     if k == 'ref':
